@@ -77,6 +77,27 @@ def evaluate(case: Dict[str, Any]) -> Dict[str, Any]:
             skC, ykC = pairs(C.result)
             m = min(mc, skB.shape[0])
             want_s, want_y = skB[skB.shape[0] - m:], ykB[ykB.shape[0] - m:]
+            # sharper, pair by pair: the history is rebuilt as x - (sum of the later steps) and differenced again, so a restored pair may
+            # differ from the checkpoint's by a few units in the last place of the LARGEST MAGNITUDE MET FROM THAT PAIR ON (the points
+            # between its start and x) — not of the oldest, largest points of the history, which have no part in it
+            def suffix_ok(got, want, end):
+                if got.shape != want.shape or got.size == 0:
+                    return got.shape == want.shape
+                mag = np.abs(np.asarray(end, dtype=float)).copy()
+                pt = np.asarray(end, dtype=float).copy()
+                okk = True
+                for i_ in range(want.shape[0] - 1, -1, -1):
+                    pt = pt - want[i_]
+                    mag = np.maximum(mag, np.abs(pt))
+                    if not (np.abs(got[i_] - want[i_]) <= 64 * 2.3e-16 * mag + 1e-300).all():
+                        okk = False
+                return okk
+            if close(skC, want_s, scale) and close(ykC, want_y, gscale) and sane and \
+                    not (suffix_ok(skC, want_s, rB.x) and suffix_ok(ykC, want_y, rB.jac)):
+                out["prop"].append({"what": "a restart that performs no iteration returns correction pairs that differ from the checkpoint's by more than "
+                                            "the rounding of a reconstruction from the current point (the error of the oldest, largest points leaks into the recent pairs)",
+                                    "key": "", "detail": {"k": k, "maxcor": mc, "pairs": int(skC.shape[0])}})
+                break
             if not (close(skC, want_s, scale) and close(ykC, want_y, gscale)):
                 out["prop"].append({"what": "a restart that performs no iteration does not return the (most recent) correction pairs of the checkpoint",
                                     "key": "" if sane else "restart-after-rejected-pair",
@@ -152,9 +173,15 @@ def run(tier: str, seed: int) -> int:
                       "families": ["qp", "qp_quartic", "qp_softplus", "rosen", "styb"],
                       "override": {"maxiter": r.choice([4, 8, 14]), "maxfun": 15000, "ftol": 0.0, "gtol": 1e-10,
                                    "maxcor": r.choice([2, 3, 5, 10])}})
+    for i in range(n // 3):
+        s = seed * 1_000_003 + 700_000 + i
+        r = random.Random(s)
+        cases.append({"seed": s, "features": features(r), "max_splits": ms, "chain": ch, "maxcors": [None, r.choice([1, 2, 3])],
+                      "families": ["decay"],
+                      "override": {"maxiter": r.choice([10, 16, 24]), "maxfun": 15000, "ftol": 0.0, "gtol": 1e-12, "maxcor": r.choice([5, 10])}})
     return run_property(
         PROP, "harness.props.c06", THEOREMS, MODULES, cases, tier, seed,
-        rule="for each explored run and each split k: run limited to k iterations, restart with no iteration (pairs compared, maxcor kept "
+        rule="for each explored run (a quarter of them from far starts, the iterates shrinking by many orders of magnitude) and each split k: run limited to k iterations, restart with no iteration (pairs compared, maxcor kept "
              "and reduced), restart for one more iteration (iterate compared with the uninterrupted run), chain of restarts; every restart "
              "is replayed bit-exactly through the Lean model (restore included); non-trivial = at least two iterations",
         assumptions=["equalities up to rounding: the history is reconstructed as x - cumulative sums", "objectives finite on the box"])
